@@ -27,6 +27,7 @@ type Case struct {
 	Slice int             `json:"slice"`
 	NRec  int             `json:"nrec"`
 	G     int             `json:"g"`
+	Pre   bool            `json:"pre,omitempty"` // the set is first created with a smaller slice size and more blocks in the same directory (longer files with the same names)
 }
 
 var reVol = regexp.MustCompile(`^set\.vol(\d+)\+(\d+)\.par2$`)
@@ -42,6 +43,15 @@ func check(c Case) string {
 		paths = append(paths, filepath.Join(dir, f.Name))
 	}
 	fsx.WriteTree(dir, orig)
+	if c.Pre {
+		ps := c.Slice / 2
+		if ps%4 != 0 || ps == 0 {
+			ps = 4
+		}
+		run.Safe(func() {
+			par2.Create(filepath.Join(dir, "set.par2"), paths, par2.CreateOptions{SliceByteCount: ps, NumParityShards: c.NRec + 3, NumGoroutines: 1})
+		})
+	}
 	before, _ := fsx.Take(dir)
 	var err error
 	if p, msg := run.Safe(func() {
@@ -55,10 +65,14 @@ func check(c Case) string {
 	after, _ := fsx.Take(dir)
 	written := map[string][]byte{}
 	for _, ch := range fsx.Diff(before, after) {
-		if ch.Kind != "created" {
+		if ch.Kind != "created" && !(c.Pre && (ch.Kind == "content" || ch.Kind == "mtime") && (reVol.MatchString(ch.Path) || ch.Path == "set.par2")) {
 			return fmt.Sprintf("Create %s %q", ch.Kind, ch.Path)
 		}
 		written[ch.Path] = after[ch.Path].Data
+	}
+	if c.Pre {
+		// files of the new set whose bytes happen to equal the old ones do not show up in the diff
+		written["set.par2"] = after["set.par2"].Data
 	}
 	if _, ok := written["set.par2"]; !ok {
 		return "Create did not write the index file"
@@ -293,6 +307,7 @@ func gen(t *rapid.T, big bool) Case {
 	}
 	c.NRec = rapid.OneOf(rapid.IntRange(1, min(budget, 12)), rapid.IntRange(1, budget)).Draw(t, "nrec")
 	c.G = rapid.SampledFrom([]int{1, 2, 3, 4, 8, 64}).Draw(t, "g")
+	c.Pre = rapid.IntRange(0, 4).Draw(t, "pre") == 0
 	return c
 }
 
@@ -305,6 +320,9 @@ func TestCheck(t *testing.T) {
 		total := scen.TotalSlices(c.Files, c.Slice)
 		if c.NRec >= 100 {
 			rec.Class("blocks>=100")
+		}
+		if c.Pre {
+			rec.Class("re-created-over-longer-files")
 		}
 		if c.NRec >= 8 {
 			rec.Class("volume-files>=4")
